@@ -283,6 +283,11 @@ func init() {
 						return
 					}
 					c15Expect(x, "$count($append(a, [[1,2]]))", doc, float64(len(c15List(aa))+1), false)
+					// a literal empty array is an array with no members (unlike an empty array selected from the
+					// input, which is no value): the other operand still counts as an array
+					c15Expect(x, "$append(a, [])", doc, append([]interface{}{}, c15List(aa)...), false)
+					c15Expect(x, "$append([], a)", doc, append([]interface{}{}, c15List(aa)...), false)
+					c15Expect(x, "$append(a, [[]])", doc, append(append([]interface{}{}, c15List(aa)...), []interface{}{}), false)
 				}
 			}},
 			{Name: "compositions", Quick: sizes(4), Thorough: sizes(5), ShardDepth: 3, Run: func(c *explore.Chooser, x *explore.Ctx, n int) {
